@@ -58,6 +58,16 @@ Definition lemitr (st : lst) (its : list gitem) (n : Z) (rs : list rghost) : lst
   {| l_len := l_len st + n; l_items := l_items st ++ its; l_binds := l_binds st; l_rels := l_rels st ++ rs |}.
 Definition lemit (st : lst) (its : list gitem) (n : Z) : lst := lemitr st its n [].
 
+(* CodeHolder::bind_label refuses (kInvalidDisplacement, nothing changes) when a same-section reference to the label cannot encode its
+   displacement (/repo 6b578fc; bind_precheck in C03's model).  Seen from the section: every reference item to the label must fit. *)
+Definition lprecheck (l : nat) (off : Z) (its : list gitem) : bool :=
+  forallb (fun it => match it with
+                     | GRef g => if Nat.eqb (g_label g) l
+                                 then match write_offset (fmt_of_kind (g_kind g)) (g_w0 g) (disp 0 0 off (g_site g) (g_rel g)) with Some _ => true | None => false end
+                                 else true
+                     | _ => true
+                     end) its.
+
 Definition lstep (nl k : nat) (st : lst) (o : sop) : lst :=
   match o with
   | SRaw bs => lemit st [GRaw bs] (zlen bs)
@@ -76,7 +86,9 @@ Definition lstep (nl k : nat) (st : lst) (o : sop) : lst :=
       if Nat.ltb l nl then
         match assoc l (l_binds st) with
         | Some _ => st
-        | None => {| l_len := l_len st; l_items := l_items st; l_binds := (l, l_len st) :: l_binds st; l_rels := l_rels st |}
+        | None => if lprecheck l (l_len st) (l_items st)
+                  then {| l_len := l_len st; l_items := l_items st; l_binds := (l, l_len st) :: l_binds st; l_rels := l_rels st |}
+                  else st                       (* the bind is refused (kInvalidDisplacement): nothing changes *)
         end
       else st
   | SAbs l size addend pre post =>
@@ -87,16 +99,6 @@ Definition lstep (nl k : nat) (st : lst) (o : sop) : lst :=
   end.
 
 Definition lfold (nl k : nat) (os : list sop) : lst := fold_left (lstep nl k) os lst0.
-
-(* CodeHolder::bind_label refuses (kInvalidDisplacement, nothing changes) when a same-section reference to the label cannot encode its
-   displacement (/repo 6b578fc; bind_precheck in C03's model).  Seen from the section: every reference item to the label must fit. *)
-Definition lprecheck (l : nat) (off : Z) (its : list gitem) : bool :=
-  forallb (fun it => match it with
-                     | GRef g => if Nat.eqb (g_label g) l
-                                 then match write_offset (fmt_of_kind (g_kind g)) (g_w0 g) (disp 0 0 off (g_site g) (g_rel g)) with Some _ => true | None => false end
-                                 else true
-                     | _ => true
-                     end) its.
 
 Definition bind_fits (st : lst) (o : sop) : bool :=
   match o with SBind l => lprecheck l (l_len st) (l_items st) | _ => true end.
@@ -331,7 +333,8 @@ Proof.
   - destruct (0 <=? n); left; reflexivity.
   - destruct (negb (Nat.ltb l nl)); [left; reflexivity|]. destruct (negb (hole_ok k0 w0)); [left; reflexivity|].
     destruct (assoc l (l_binds st)); [destruct (write_offset _ _ _)|]; left; reflexivity.
-  - destruct (Nat.ltb l nl); [|left; reflexivity]. destruct (assoc l (l_binds st)) eqn:E; [left; reflexivity|]. right. exists l. auto.
+  - destruct (Nat.ltb l nl); [|left; reflexivity]. destruct (assoc l (l_binds st)) eqn:E; [left; reflexivity|].
+    destruct (lprecheck l (l_len st) (l_items st)); [|left; reflexivity]. right. exists l. auto.
   - destruct (negb (Nat.ltb l nl)); [left; reflexivity|]. destruct (negb (size_ok size)); left; reflexivity.
 Qed.
 
@@ -353,11 +356,62 @@ Qed.
 Lemma bound_labels_snoc : forall t x, bound_labels (t ++ [x]) = bound_labels t ++ match snd x with SBind l => [l] | _ => [] end.
 Proof. intros. unfold bound_labels. rewrite flat_map_app. cbn. now rewrite app_nil_r. Qed.
 
+Lemma ghosts_sec : forall nl k os g, In (GRef g) (l_items (lfold nl k os)) -> g_sec g = k.
+Proof.
+  intros nl k os. induction os as [|o os IH] using rev_ind; intros g H; [contradiction|].
+  rewrite lfold_snoc in H. destruct o; cbn [lstep] in H.
+  - cbn in H. apply in_app_or in H. destruct H as [H|[H|[]]]; [auto|discriminate].
+  - destruct (0 <=? n); [|auto]. cbn in H. apply in_app_or in H. destruct H as [H|[H|[]]]; [auto|discriminate].
+  - destruct (negb (Nat.ltb l nl)); [auto|]. destruct (negb (hole_ok k0 w0)); [auto|].
+    assert (X : In (GRef g) (l_items (lemit (lfold nl k os) [GRaw pre; GRef {| g_sec := k; g_site := l_len (lfold nl k os) + zlen pre; g_rel := rel; g_kind := k0; g_label := l; g_w0 := w0 |}; GRaw post]
+                                        (zlen pre + vsize (fmt_of_kind k0) + zlen post))) -> g_sec g = k).
+    { intros X. cbn in X. apply in_app_or in X. destruct X as [X|[X|[X|[X|[]]]]]; [auto|discriminate|injection X as <-; reflexivity|discriminate]. }
+    destruct (assoc l (l_binds (lfold nl k os))); [destruct (write_offset _ _ _)|]; auto.
+  - destruct (Nat.ltb l nl); [|auto]. destruct (assoc l (l_binds (lfold nl k os))); [auto|].
+    destruct (lprecheck l (l_len (lfold nl k os)) (l_items (lfold nl k os))); auto.
+  - destruct (negb (Nat.ltb l nl)); [auto|]. destruct (negb (size_ok size)); [auto|].
+    cbn in H. apply in_app_or in H. destruct H as [H|[H|[]]]; [auto|discriminate].
+Qed.
+
+(* the machine's bind precheck (over the pending fixups) = the section's own precheck (over its reference items) *)
+Lemma precheck_local : forall nl ns t s k l, J nl ns t s -> inv s -> (k < S ns)%nat -> nth_error (labels s) l = Some None ->
+  bind_precheck l k (s_len (nsec s k)) (pending s) (refs s) = lprecheck l (l_len (lfold nl k (proj k t))) (l_items (lfold nl k (proj k t))).
+Proof.
+  intros nl ns t s k l HJ HI Hk EL. pose proof HJ as [A B C D E F G H PM NR].
+  destruct (lprecheck l (l_len (lfold nl k (proj k t))) (l_items (lfold nl k (proj k t)))) eqn:EP.
+  - (* every pending fixup of the label in this section belongs to a reference item of the section *)
+    unfold bind_precheck. apply forallb_forall. intros fx Hfx. unfold bind_sel.
+    destruct (Nat.eqb (fx_label fx) l) eqn:E1; [|reflexivity]. destruct (Nat.eqb (fx_sec fx) k) eqn:E2; [|reflexivity].
+    apply Nat.eqb_eq in E1. apply Nat.eqb_eq in E2.
+    destruct (inv_fx _ _ _ _ _ HI fx Hfx) as (r & Hr & Hsec & Hsite & Hrel & Hkind & Hlab & Hw0). rewrite Hr.
+    destruct (H _ r Hr) as [_ Hin]. rewrite Hsec, E2 in Hin.
+    unfold lprecheck in EP. rewrite forallb_forall in EP. specialize (EP _ Hin). cbn [ghost_of g_label g_kind g_w0 g_site g_rel] in EP.
+    rewrite Hlab, E1, Nat.eqb_refl in EP. rewrite D by exact Hk. cbn [lay_so lay_to]. rewrite <- Hkind, <- Hsite, <- Hrel, Hw0. exact EP.
+  - (* every reference item to the (unbound) label still has its fixup pending *)
+    destruct (bind_precheck l k (s_len (nsec s k)) (pending s) (refs s)) eqn:BP; [exfalso|reflexivity].
+    assert (X : lprecheck l (l_len (lfold nl k (proj k t))) (l_items (lfold nl k (proj k t))) = true); [|congruence].
+    unfold lprecheck. apply forallb_forall. intros it Hit. destruct it as [bs|n|g]; try reflexivity.
+    destruct (Nat.eqb (g_label g) l) eqn:EG; [|reflexivity]. apply Nat.eqb_eq in EG.
+    pose proof (ghosts_sec nl k (proj k t) g Hit) as GS.
+    rewrite <- (E k Hk) in Hit. apply in_map_iff in Hit. destruct Hit as (it0 & Hgi & Hin0).
+    destruct it0 as [bs|n|id]; cbn in Hgi; try discriminate.
+    destruct (nth_error (refs s) id) as [r|] eqn:Er; [|discriminate]. injection Hgi as Hg.
+    destruct (inv_refs _ _ _ _ _ HI id r Er) as [HP|(ls & lo & HB & _)].
+    2:{ assert (r_label r = l) by (rewrite <- EG, <- Hg; reflexivity). rewrite H0 in HB. congruence. }
+    apply in_map_iff in HP. destruct HP as (fx & Hid & Hfx).
+    destruct (inv_fx _ _ _ _ _ HI fx Hfx) as (r' & Hr' & Hsec & Hsite & Hrel & Hkind & Hlab & Hw0). rewrite Hid, Er in Hr'. injection Hr' as <-.
+    unfold bind_precheck in BP. rewrite forallb_forall in BP. specialize (BP fx Hfx). unfold bind_sel in BP.
+    assert (L1 : fx_label fx = l) by (rewrite <- Hlab, <- EG, <- Hg; reflexivity).
+    assert (L2 : fx_sec fx = k) by (rewrite <- Hsec, <- GS, <- Hg; reflexivity).
+    rewrite L1, L2, !Nat.eqb_refl, Hid, Er in BP. cbn [lay_so lay_to] in BP.
+    rewrite D in BP by exact Hk. rewrite <- Hg. cbn [ghost_of g_kind g_w0 g_site g_rel].
+    rewrite <- Hkind, <- Hsite, <- Hrel, Hw0 in BP. exact BP.
+Qed.
+
 Lemma J_step : forall nl ns t s k o, J nl ns t s -> inv s -> (k < S ns)%nat -> NoDup (bound_labels (t ++ [(k, o)])) ->
-  bind_fits (lfold nl k (proj k t)) o = true ->
   J nl ns (t ++ [(k, o)]) (run s (expand1 (k, o))).
 Proof.
-  intros nl ns t s k o HJ HI Hk HN HFIT. pose proof HJ as [A B C D E F G H PM NR].
+  intros nl ns t s k o HJ HI Hk HN. pose proof HJ as [A B C D E F G H PM NR].
   unfold expand1. cbn [fst snd run]. rewrite step_section_ok by lia. cbn [fst].
   set (s1 := set_cur s k).
   assert (CS : cur_sec s1 = nsec s k) by reflexivity.
@@ -426,17 +480,15 @@ Proof.
       assert (X : (k' < S ns)%nat /\ assoc l (l_binds (lfold nl k' (proj k' t))) = Some off') by (apply G; exact EL).
       destruct X as [_ X]. apply assoc_lfold_bind, proj_bind_bound in X.
       rewrite bound_labels_snoc in HN. cbn in HN. apply NoDup_remove_2 in HN. apply HN. rewrite app_nil_r. exact X.
-    + (* bind now: it is not refused *)
-      assert (PRE : bind_precheck l (cur s1) (s_len (cur_sec s1)) (pending s1) (refs s1) = true).
-      { unfold bind_precheck. apply forallb_forall. intros fx Hfx. change (pending s1) with (pending s) in Hfx. change (refs s1) with (refs s).
-        unfold bind_sel. change (cur s1) with k.
-        destruct (Nat.eqb (fx_label fx) l) eqn:E1; [|reflexivity]. destruct (Nat.eqb (fx_sec fx) k) eqn:E2; [|reflexivity].
-        apply Nat.eqb_eq in E1. apply Nat.eqb_eq in E2.
-        destruct (inv_fx _ _ _ _ _ HI fx Hfx) as (r & Hr & Hsec & Hsite & Hrel & Hkind & Hlab & Hw0). rewrite Hr.
-        destruct (H _ r Hr) as [_ Hin]. rewrite Hsec, E2 in Hin.
-        cbn [bind_fits] in HFIT. unfold lprecheck in HFIT. rewrite forallb_forall in HFIT. specialize (HFIT _ Hin). cbn [ghost_of g_label g_kind g_w0 g_site g_rel] in HFIT.
-        rewrite Hlab, E1, Nat.eqb_refl in HFIT. rewrite CS, D by exact Hk. cbn [lay_so lay_to]. rewrite <- Hkind, <- Hsite, <- Hrel, Hw0. exact HFIT. }
-      rewrite PRE. cbn [negb fst].
+    + (* the label is unbound: the bind happens unless the precheck refuses it - decided by the section's own reference items *)
+      assert (LT0 : Nat.ltb l nl = true). { apply Nat.ltb_lt. apply LL. congruence. }
+      assert (ASk0 : assoc l (l_binds (lfold nl k (proj k t))) = None).
+      { destruct (assoc l (l_binds (lfold nl k (proj k t)))) as [z|] eqn:EA; [|reflexivity].
+        assert (Y : nth_error (labels s) l = Some (Some (k, z))) by (apply G; auto). congruence. }
+      pose proof (precheck_local nl ns t s k l HJ HI Hk EL) as PL.
+      change (bind_precheck l (cur s1) (s_len (cur_sec s1)) (pending s1) (refs s1)) with (bind_precheck l k (s_len (nsec s k)) (pending s) (refs s)).
+      rewrite PL. destruct (lprecheck l (l_len (lfold nl k (proj k t))) (l_items (lfold nl k (proj k t)))) eqn:EP; cbn [negb fst].
+      2:{ eapply J_nop; try exact HJ; try exact Hk; try reflexivity. cbn [lstep]. rewrite LT0, ASk0, EP. reflexivity. }
       destruct (bind_rel l (cur s1) (s_len (cur_sec s1)) (pending_rel s1) (relocs s1)) as [[prk rl] nrel] eqn:EB.
       cbn [fst].
       set (W := resolve_list (bind_sel l (cur s1) (s_len (cur_sec s1))) true (pending s1) (refs s1)).
@@ -452,7 +504,7 @@ Proof.
       assert (Pk : lfold nl k (proj k (t ++ [(k, SBind l)])) =
                    {| l_len := l_len (lfold nl k (proj k t)); l_items := l_items (lfold nl k (proj k t));
                       l_binds := (l, l_len (lfold nl k (proj k t))) :: l_binds (lfold nl k (proj k t)); l_rels := l_rels (lfold nl k (proj k t)) |}).
-      { rewrite proj_snoc. cbn [fst snd]. rewrite Nat.eqb_refl, lfold_snoc. cbn [lstep]. rewrite LT, ASk. reflexivity. }
+      { rewrite proj_snoc. cbn [fst snd]. rewrite Nat.eqb_refl, lfold_snoc. cbn [lstep]. rewrite LT, ASk, EP. reflexivity. }
       match goal with |- J _ _ _ ?st => set (s2 := st) end.
       assert (Q1 : secs s2 = secs s) by reflexivity.
       assert (Q2 : labels s2 = upd (labels s) l (Some (k, s_len (nsec s k)))) by reflexivity.
@@ -587,15 +639,15 @@ Proof.
   - specialize (H k Hk). rewrite proj_snoc in H. cbn [fst snd] in H. rewrite Nat.eqb_refl, fits_from_snoc in H. apply andb_prop in H. tauto.
 Qed.
 
-Lemma J_run : forall nl ns t, tags_ok ns t -> NoDup (bound_labels t) -> all_fit nl ns t ->
+Lemma J_run : forall nl ns t, tags_ok ns t -> NoDup (bound_labels t) ->
   J nl ns t (run init (prelude nl ns ++ expand t)) /\ inv (run init (prelude nl ns ++ expand t)).
 Proof.
-  intros nl ns t. induction t as [|x t IH] using rev_ind; intros HT HN HFT.
+  intros nl ns t. induction t as [|x t IH] using rev_ind; intros HT HN.
   - cbn [expand flat_map]. rewrite app_nil_r. split; [apply J_prelude|apply run_inv, inv_init].
   - apply Forall_app in HT. destruct HT as [HT Hx]. inversion Hx; subst.
     assert (HN' : NoDup (bound_labels t)) by (rewrite bound_labels_snoc in HN; eapply NoDup_app_l'; exact HN).
-    destruct x as [k o]. destruct (all_fit_snoc nl ns t k o H1 HFT) as [HFT' HFo].
-    destruct (IH HT HN' HFT') as [IJ II]. rewrite expand_snoc, app_assoc, run_app. split.
+    destruct x as [k o].
+    destruct (IH HT HN') as [IJ II]. rewrite expand_snoc, app_assoc, run_app. split.
     + apply J_step; assumption.
     + apply run_inv. exact II.
 Qed.
@@ -736,11 +788,11 @@ Record final (nl ns : nat) (t : list top) (offs : list Z) (s : state) : Prop := 
 }.
 
 (* the assembled result as a function of the per-section operation sequences *)
-Theorem final_char : forall nl ns t offs, tags_ok ns t -> NoDup (bound_labels t) -> all_fit nl ns t -> nowrap nl ns t offs ->
+Theorem final_char : forall nl ns t offs, tags_ok ns t -> NoDup (bound_labels t) -> nowrap nl ns t offs ->
   final nl ns t offs (run init ((prelude nl ns ++ expand t) ++ [OResolve offs])).
 Proof.
-  intros nl ns t offs HT HN HFT HW.
-  destruct (J_run nl ns t HT HN HFT) as [HJ HI]. pose proof (no_resolve_ops nl ns t) as HNR.
+  intros nl ns t offs HT HN HW.
+  destruct (J_run nl ns t HT HN) as [HJ HI]. pose proof (no_resolve_ops nl ns t) as HNR.
   set (ops := prelude nl ns ++ expand t) in *. set (sF := run init ops) in *.
   pose proof HJ as [A B C D E F G H PM NR].
   assert (RUN : run init (ops ++ [OResolve offs]) = fst (step sF (OResolve offs))) by (rewrite run_app; reflexivity).
@@ -878,7 +930,7 @@ Qed.
    the same section sizes and, after layout at ANY section offsets and cross-section resolution, the same bytes in every section. *)
 Theorem order_irrelevant : forall nl ns t1 t2 offs,
   (forall k, proj k t1 = proj k t2) ->
-  tags_ok ns t1 -> tags_ok ns t2 -> NoDup (bound_labels t1) -> NoDup (bound_labels t2) -> all_fit nl ns t1 -> nowrap nl ns t1 offs ->
+  tags_ok ns t1 -> tags_ok ns t2 -> NoDup (bound_labels t1) -> NoDup (bound_labels t2) -> nowrap nl ns t1 offs ->
   let s1 := run init ((prelude nl ns ++ expand t1) ++ [OResolve offs]) in
   let s2 := run init ((prelude nl ns ++ expand t2) ++ [OResolve offs]) in
   labels s1 = labels s2 /\ unresolved s1 = unresolved s2 /\ Permutation (relocs s1) (relocs s2) /\
@@ -886,10 +938,9 @@ Theorem order_irrelevant : forall nl ns t1 t2 offs,
     s_len (nsec s1 k) = s_len (nsec s2 k) /\
     sec_image (refs s1) (s_items (nsec s1 k)) = sec_image (refs s2) (s_items (nsec s2 k)).
 Proof.
-  intros nl ns t1 t2 offs HP T1 T2 N1 N2 HFT HW s1 s2.
+  intros nl ns t1 t2 offs HP T1 T2 N1 N2 HW s1 s2.
   assert (HW2 : nowrap nl ns t2 offs) by (intros k Hk; rewrite <- HP; apply HW; exact Hk).
-  assert (HFT2 : all_fit nl ns t2) by (intros k Hk; rewrite <- HP; apply HFT; exact Hk).
-  pose proof (final_char nl ns t1 offs T1 N1 HFT HW) as F1. pose proof (final_char nl ns t2 offs T2 N2 HFT2 HW2) as F2.
+  pose proof (final_char nl ns t1 offs T1 N1 HW) as F1. pose proof (final_char nl ns t2 offs T2 N2 HW2) as F2.
   fold s1 in F1. fold s2 in F2.
   pose proof (final_labels_eq nl ns t1 t2 offs s1 s2 HP F1 F2) as HL. split; [exact HL|].
   destruct F1 as [_ _ L1 I1 U1 R1]. destruct F2 as [_ _ L2 I2 U2 R2].
@@ -954,7 +1005,7 @@ Qed.
 
 (* order irrelevance with the hypotheses stated once *)
 Corollary order_irrelevant' : forall nl ns t1 t2 offs,
-  (forall k, proj k t1 = proj k t2) -> tags_ok ns t1 -> tags_ok ns t2 -> NoDup (bound_labels t1) -> all_fit nl ns t1 -> nowrap nl ns t1 offs ->
+  (forall k, proj k t1 = proj k t2) -> tags_ok ns t1 -> tags_ok ns t2 -> NoDup (bound_labels t1) -> nowrap nl ns t1 offs ->
   let s1 := run init ((prelude nl ns ++ expand t1) ++ [OResolve offs]) in
   let s2 := run init ((prelude nl ns ++ expand t2) ++ [OResolve offs]) in
   labels s1 = labels s2 /\ unresolved s1 = unresolved s2 /\ Permutation (relocs s1) (relocs s2) /\
@@ -962,7 +1013,7 @@ Corollary order_irrelevant' : forall nl ns t1 t2 offs,
     s_len (nsec s1 k) = s_len (nsec s2 k) /\
     sec_image (refs s1) (s_items (nsec s1 k)) = sec_image (refs s2) (s_items (nsec s2 k)).
 Proof.
-  intros nl ns t1 t2 offs HP T1 T2 N1 HFT HW. apply order_irrelevant; try assumption. eapply bound_once_transfers; eassumption.
+  intros nl ns t1 t2 offs HP T1 T2 N1 HW. apply order_irrelevant; try assumption. eapply bound_once_transfers; eassumption.
 Qed.
 
 (* ------------------------------------------------------------------ the layout + resolution step itself reports no error (whatever the order) *)
@@ -976,10 +1027,10 @@ Proof.
     destruct (write_offset _ _ _); cbn [walk_keep walk_done w_err] in H; [|cbn in H]; destruct (IH _ H) as (fx & A & B); exists fx; (split; [now right|exact B]).
 Qed.
 
-Theorem resolve_ok : forall nl ns t offs, tags_ok ns t -> NoDup (bound_labels t) -> all_fit nl ns t -> nowrap nl ns t offs ->
+Theorem resolve_ok : forall nl ns t offs, tags_ok ns t -> NoDup (bound_labels t) -> nowrap nl ns t offs ->
   snd (step (run init (prelude nl ns ++ expand t)) (OResolve offs)) = EOk.
 Proof.
-  intros nl ns t offs HT HN HFT HW. destruct (J_run nl ns t HT HN HFT) as [HJ HI].
+  intros nl ns t offs HT HN HW. destruct (J_run nl ns t HT HN) as [HJ HI].
   set (sF := run init (prelude nl ns ++ expand t)) in *. pose proof HJ as [A B C D E F G H PM NR].
   cbn [step snd]. destruct (w_err (resolve_list (resolve_sel (labels sF) offs) false (pending sF) (refs sF))) eqn:EW; [|reflexivity].
   exfalso. destruct (walk_err_serr _ _ _ EW) as (fx & Hin & X).
@@ -990,4 +1041,144 @@ Proof.
   apply G in EL. destruct EL as [Hls EA]. destruct (HW ls Hls) as [_ W2]. specialize (W2 _ _ EA).
   destruct (H _ r Hr) as [Hs Hg]. destruct (HW (r_sec r) Hs) as [W1 _]. specialize (W1 _ Hg). cbn in W1. rewrite Hsec, Hsite in W1.
   apply orb_true_iff in EO. destruct EO as [EO|EO]; apply Z.leb_le in EO; lia.
+Qed.
+
+(* ================================================================== error codes of the assembling phase
+   The error code every operation returns is a function of its own section's history - hence the same in every interleaving. *)
+Definition lerr (nl k : nat) (st : lst) (o : sop) : err :=
+  match o with
+  | SRaw _ => EOk
+  | SGap n => if 0 <=? n then EOk else EBadInput
+  | SRef kd rel l pre w0 post =>
+      if negb (Nat.ltb l nl) then EInvalidLabel else
+      if negb (hole_ok kd w0) then EBadInput else
+      match assoc l (l_binds st) with
+      | Some lo => match write_offset (fmt_of_kind kd) w0 (disp 0 0 lo (l_len st + zlen pre) rel) with Some _ => EOk | None => EInvalidDisp end
+      | None => EOk
+      end
+  | SBind l => if Nat.ltb l nl then match assoc l (l_binds st) with
+                                    | Some _ => EAlreadyBound
+                                    | None => if lprecheck l (l_len st) (l_items st) then EOk else EInvalidDisp
+                                    end else EInvalidLabel
+  | SAbs l size addend pre post => if negb (Nat.ltb l nl) then EInvalidLabel else if negb (size_ok size) then EInvalidSize else EOk
+  end.
+
+Lemma precheck_no_err : forall l sec off fxs rs, NoDup (ids fxs) -> (forall fx, In fx fxs -> fx_ok rs fx) ->
+  bind_precheck l sec off fxs rs = true -> w_err (resolve_list (bind_sel l sec off) true fxs rs) = false.
+Proof.
+  induction fxs as [|a t IH]; intros rs ND OK HP; [reflexivity|]. cbn [ids map] in ND. inversion ND; subst.
+  unfold bind_precheck in HP. cbn [forallb] in HP. apply andb_prop in HP. destruct HP as [HA HT]. fold (bind_precheck l sec off t rs) in HT.
+  assert (OKt : forall fx0, In fx0 t -> fx_ok rs fx0) by (intros; apply OK; now right).
+  cbn [resolve_list]. destruct (bind_sel l sec off a) as [| |lay lo] eqn:ES; cbn [walk_keep w_err].
+  - cbn. apply IH; assumption.
+  - unfold bind_sel in ES. destruct (Nat.eqb (fx_label a) l); [destruct (Nat.eqb (fx_sec a) sec)|]; discriminate.
+  - destruct (nth_error rs (fx_id a)) as [r|] eqn:ER; cbn [walk_keep w_err]; [|cbn; apply IH; assumption].
+    destruct (write_offset (fmt_of_kind (fx_kind a)) (r_word r) (disp (lay_so lay) (lay_to lay) lo (fx_off a) (fx_rel a))) as [w|] eqn:EW; [|discriminate HA].
+    cbn [walk_done w_err]. apply IH; [assumption| |].
+    + intros fx0 H0. apply (fx_ok_same rs); [|apply OKt; exact H0]. apply nth_error_upd_neq. intro EQ. apply H1. rewrite EQ. apply in_map. exact H0.
+    + unfold bind_precheck in *. rewrite forallb_forall in *. intros fx0 H0. specialize (HT fx0 H0).
+      destruct (bind_sel l sec off fx0); try exact HT. rewrite nth_error_upd_neq; [exact HT|]. intro EQ. apply H1. rewrite EQ. apply in_map. exact H0.
+Qed.
+
+Lemma E_step : forall nl ns t s k o, J nl ns t s -> inv s -> (k < S ns)%nat -> NoDup (bound_labels (t ++ [(k, o)])) ->
+  snd (step (set_cur s k) (op_of o)) = lerr nl k (lfold nl k (proj k t)) o.
+Proof.
+  intros nl ns t s k o HJ HI Hk HN. pose proof HJ as [A B C D E F G H PM NR].
+  set (s1 := set_cur s k). assert (CS : cur_sec s1 = nsec s k) by reflexivity.
+  assert (LL : forall l, nth_error (labels s) l = None <-> Nat.ltb l nl = false).
+  { intros l. rewrite nth_error_None, Nat.ltb_ge. lia. }
+  destruct o as [bs|n|kd rel l pre w0 post|l|l size addend pre post]; cbn [op_of step lerr].
+  - reflexivity.
+  - destruct (0 <=? n); reflexivity.
+  - change (labels s1) with (labels s). destruct (nth_error (labels s) l) as [lb|] eqn:EL.
+    2:{ apply LL in EL. rewrite EL. reflexivity. }
+    assert (LT : Nat.ltb l nl = true). { destruct (Nat.ltb l nl) eqn:X; [reflexivity|]. apply LL in X. congruence. }
+    rewrite LT. cbn [negb]. destruct (negb (hole_ok kd w0)); [reflexivity|].
+    destruct lb as [[ls lo]|].
+    + destruct (Nat.eqb ls (cur s1)) eqn:ES.
+      * apply Nat.eqb_eq in ES. change (cur s1) with k in ES. subst ls.
+        assert (AS : assoc l (l_binds (lfold nl k (proj k t))) = Some lo) by (apply G; exact EL). rewrite AS.
+        rewrite CS, D by exact Hk. destruct (write_offset _ _ _); reflexivity.
+      * apply Nat.eqb_neq in ES. change (cur s1) with k in ES.
+        destruct (assoc l (l_binds (lfold nl k (proj k t)))) as [off|] eqn:EA; [|reflexivity].
+        assert (X : nth_error (labels s) l = Some (Some (k, off))) by (apply G; auto). congruence.
+    + destruct (assoc l (l_binds (lfold nl k (proj k t)))) as [off|] eqn:EA; [|reflexivity].
+      assert (X : nth_error (labels s) l = Some (Some (k, off))) by (apply G; auto). congruence.
+  - change (labels s1) with (labels s). destruct (nth_error (labels s) l) as [[[k' off']|]|] eqn:EL.
+    + exfalso. assert (X : (k' < S ns)%nat /\ assoc l (l_binds (lfold nl k' (proj k' t))) = Some off') by (apply G; exact EL).
+      destruct X as [_ X]. apply assoc_lfold_bind, proj_bind_bound in X.
+      rewrite bound_labels_snoc in HN. cbn in HN. apply NoDup_remove_2 in HN. apply HN. rewrite app_nil_r. exact X.
+    + assert (LT : Nat.ltb l nl = true). { destruct (Nat.ltb l nl) eqn:X; [reflexivity|]. apply LL in X. congruence. }
+      rewrite LT.
+      assert (ASk : assoc l (l_binds (lfold nl k (proj k t))) = None).
+      { destruct (assoc l (l_binds (lfold nl k (proj k t)))) as [z|] eqn:EA; [|reflexivity].
+        assert (Y : nth_error (labels s) l = Some (Some (k, z))) by (apply G; auto). congruence. }
+      rewrite ASk.
+      pose proof (precheck_local nl ns t s k l HJ HI Hk EL) as PL.
+      change (bind_precheck l (cur s1) (s_len (cur_sec s1)) (pending s1) (refs s1)) with (bind_precheck l k (s_len (nsec s k)) (pending s) (refs s)).
+      destruct (lprecheck l (l_len (lfold nl k (proj k t))) (l_items (lfold nl k (proj k t)))) eqn:EP; rewrite PL; cbn [negb]; [|reflexivity].
+      assert (PRE : bind_precheck l (cur s1) (s_len (cur_sec s1)) (pending s1) (refs s1) = true) by exact PL.
+      destruct (bind_rel l (cur s1) (s_len (cur_sec s1)) (pending_rel s1) (relocs s1)) as [[prk rl] nrel]. cbn [snd].
+      rewrite (precheck_no_err l (cur s1) (s_len (cur_sec s1)) (pending s1) (refs s1) (inv_nodup _ _ _ _ _ HI) (inv_fx _ _ _ _ _ HI) PRE). reflexivity.
+    + apply LL in EL. rewrite EL. reflexivity.
+  - change (labels s1) with (labels s). destruct (nth_error (labels s) l) as [lb|] eqn:EL.
+    2:{ apply LL in EL. rewrite EL. reflexivity. }
+    assert (LT : Nat.ltb l nl = true). { destruct (Nat.ltb l nl) eqn:X; [reflexivity|]. apply LL in X. congruence. }
+    rewrite LT. cbn [negb]. destruct (negb (size_ok size)); [reflexivity|]. destruct lb as [[? ?]|]; reflexivity.
+Qed.
+
+Fixpoint run_errs (s : state) (t : list top) : list err :=
+  match t with
+  | [] => []
+  | x :: r => let s1 := fst (step s (OSection (fst x))) in
+              snd (step s1 (op_of (snd x))) :: run_errs (fst (step s1 (op_of (snd x)))) r
+  end.
+
+Fixpoint lerrs (nl k : nat) (st : lst) (os : list sop) : list err :=
+  match os with [] => [] | o :: r => lerr nl k st o :: lerrs nl k (lstep nl k st o) r end.
+
+(* the error codes returned by the operations of section k, in order *)
+Definition err_proj (k : nat) (t : list top) (es : list err) : list err :=
+  map snd (filter (fun xe : top * err => Nat.eqb (fst (fst xe)) k) (combine t es)).
+
+Lemma run_errs_length : forall t s, length (run_errs s t) = length t.
+Proof. induction t; intros; cbn; [reflexivity|]. now rewrite IHt. Qed.
+
+Lemma run_errs_snoc : forall t s x, run_errs s (t ++ [x]) =
+  run_errs s t ++ [snd (step (fst (step (run s (expand t)) (OSection (fst x)))) (op_of (snd x)))].
+Proof.
+  induction t as [|a t IH]; intros s x; [reflexivity|]. cbn [app run_errs]. rewrite IH. cbn [expand flat_map expand1 app run]. reflexivity.
+Qed.
+
+Lemma lerrs_snoc : forall nl k os st o, lerrs nl k st (os ++ [o]) = lerrs nl k st os ++ [lerr nl k (fold_left (lstep nl k) os st) o].
+Proof. induction os; intros; cbn; [reflexivity|]. now rewrite IHos. Qed.
+
+Lemma combine_snoc : forall {A B} (l : list A) (m : list B) x y, length l = length m -> combine (l ++ [x]) (m ++ [y]) = combine l m ++ [(x, y)].
+Proof. induction l; intros [|b m] x y H; cbn in *; try discriminate; [reflexivity|]. f_equal. apply IHl. lia. Qed.
+
+Theorem errors_char : forall nl ns t, tags_ok ns t -> NoDup (bound_labels t) ->
+  forall k, err_proj k t (run_errs (run init (prelude nl ns)) t) = lerrs nl k lst0 (proj k t).
+Proof.
+  intros nl ns t. induction t as [|x t IH] using rev_ind; intros HT HN k; [reflexivity|].
+  apply Forall_app in HT. destruct HT as [HT Hx]. inversion Hx; subst.
+  assert (HN' : NoDup (bound_labels t)) by (rewrite bound_labels_snoc in HN; eapply NoDup_app_l'; exact HN).
+  destruct x as [kx o]. cbn [fst] in H1.
+  destruct (J_run nl ns t HT HN') as [HJ HI].
+  rewrite run_errs_snoc. unfold err_proj. rewrite combine_snoc by (now rewrite run_errs_length).
+  rewrite filter_app, map_app. fold (err_proj k t (run_errs (run init (prelude nl ns)) t)). rewrite IH by assumption.
+  rewrite proj_snoc. cbn [fst snd filter map]. destruct (Nat.eqb kx k) eqn:EQ.
+  - apply Nat.eqb_eq in EQ. subst kx. rewrite lerrs_snoc. f_equal. cbn [map]. f_equal.
+    rewrite <- run_app. rewrite step_section_ok by (rewrite (j_secs _ _ _ _ HJ); exact H1). cbn [fst].
+    apply (E_step nl ns t); assumption.
+  - now rewrite !app_nil_r.
+Qed.
+
+(* ... hence the same in any interleaving *)
+Corollary errors_order_irrelevant : forall nl ns t1 t2, (forall k, proj k t1 = proj k t2) ->
+  tags_ok ns t1 -> tags_ok ns t2 -> NoDup (bound_labels t1) ->
+  forall k, err_proj k t1 (run_errs (run init (prelude nl ns)) t1) = err_proj k t2 (run_errs (run init (prelude nl ns)) t2).
+Proof.
+  intros nl ns t1 t2 HP T1 T2 N1 k.
+  assert (N2 : NoDup (bound_labels t2)) by (eapply bound_once_transfers; eassumption).
+  rewrite (errors_char nl ns t1 T1 N1), (errors_char nl ns t2 T2 N2). now rewrite HP.
 Qed.
